@@ -18,12 +18,13 @@
 (***************************************************************************)
 EXTENDS Wire, Json
 
-CONSTANTS MaxList,      \* list lengths 0..MaxList for the shapes
+CONSTANTS MaxList,      \* list lengths 0..MaxList for IPv4 / TCP options and IPv6 TLVs
+          MaxList2,     \* list lengths 0..MaxList2 for NDP options and GRE source routes
           Payloads,     \* payload lengths for the shapes
           StackPayloads \* payload lengths for the stacks
 VARIABLES g
 NoF == [c |-> FALSE, r |-> FALSE, k |-> FALSE, s |-> FALSE, a |-> FALSE,
-        keyb |-> <<0, 0, 0, 1>>, seqb |-> <<0, 0, 0, 2>>, ackb |-> <<0, 0, 0, 3>>, jumbo |-> FALSE]
+        keyb |-> <<0, 0, 0, 1>>, seqb |-> <<0, 0, 0, 2>>, ackb |-> <<0, 0, 0, 3>>, jumbo |-> FALSE, padzero |-> TRUE]
 
 A4   == {<<1, 1>>, <<148, 4>>, <<7, 7>>, <<130, 3>>, <<68, 6>>}
 ATCP == {<<1, 1>>, <<2, 4>>, <<3, 3>>, <<4, 2>>, <<8, 10>>}
@@ -44,8 +45,8 @@ Shapes ==
   \cup {[kind |-> "TCP", list |-> l, f |-> NoF] : l \in {x \in WithEOL(Seqs(ATCP, MaxList)) : KLLen(x) <= 40}}
   \cup {[kind |-> "IPv6HopByHop", list |-> l, f |-> NoF] : l \in Seqs(ATLV, MaxList)}
   \cup {[kind |-> "IPv6Destination", list |-> l, f |-> NoF] : l \in Seqs(ATLV, MaxList)}
-  \cup {[kind |-> k, list |-> l, f |-> NoF] : k \in NDPKinds, l \in Seqs(ANDP, MaxList - 1)}
-  \cup UNION {{[kind |-> "GRE", list |-> l, f |-> f] : l \in {x \in Seqs(ASRE, MaxList - 1) : x = <<>> \/ f.r}} : f \in Flags}
+  \cup {[kind |-> k, list |-> l, f |-> NoF] : k \in NDPKinds, l \in Seqs(ANDP, MaxList2)}
+  \cup UNION {{[kind |-> "GRE", list |-> l, f |-> f] : l \in {x \in Seqs(ASRE, MaxList2) : x = <<>> \/ f.r}} : f \in Flags}
 
 \* the ideal encoding of a shape over a payload of `after` bytes, and the law that judges it
 IdealShape(s, after) ==
